@@ -318,13 +318,20 @@ def _mp_tile_worker(queue, done_event, pio, _kwargs):
     tile_parity_sign = pio.get_default_vertical_parity_sign()
 
     while True:
+        # Sample the shutdown flag *before* waiting for an item. The producer
+        # only sets it after everything has been flushed into the queue, so if
+        # it was already set when we started waiting, a timeout really means
+        # that there is no work left. Checking it only after the timeout is
+        # racy: the last items may be flushed, and the flag set, in between.
+        finishing = done_event.is_set()
+
         try:
             # un-pickling WCS objects always triggers warnings right now
             with warnings.catch_warnings():
                 warnings.simplefilter("ignore")
                 image, desc = queue.get(True, timeout=1)
         except Empty:
-            if done_event.is_set():
+            if finishing:
                 break
             continue
 
